@@ -130,3 +130,14 @@ reg("C49", "rv-engine", "exploration", "limit monitor on every committed user tr
 reg("C51", "rv-engine", "exploration", "locked-bytes-never-change monitor + lock scripts",
     "Lock scripts on metadata entries and owner roles of accounts and resources followed by update/remove/lock/set-owner attempts by owner, other keys and nobody, interleaved with the default mix; a history-long map of every substate ever seen locked (fields and key-value entries, classified through the receipt's system structure) flags any later change of its bytes; an update of a locked entry must never commit successfully.",
     _LEDGER_NOTE + " Locks taken by custom components (field_lock, key_value_entry_lock) and royalty locks are not exercised here.", "DESIGN.md §4 C51")
+
+# ---- sanitizer post-steps -------------------------------------------------------------------
+_MIRI_STEP = dict(
+    name="miri-sbor-codecs-and-escaper", tool="cargo +nightly miri run (rv-miri)",
+    cmd=["cargo", "+nightly", "miri", "run", "-q", "-p", "rv-miri", "--", "{seed}", "{iters}"],
+    env={"MIRIFLAGS": "-Zmiri-disable-isolation -Zmiri-ignore-leaks", "CARGO_TARGET_DIR": "/verif/target/miri"},
+    shards={"quick": 4, "thorough": 16}, iterations={"quick": 120, "thorough": 1500},
+    ok_marker="MIRI-SHARD", violation_markers=["Undefined Behavior"], timeout=3000,
+)
+CHECKS["C21"]["post_steps"] = [_MIRI_STEP]
+CHECKS["C21"]["note"] += " Sanitizer step: Miri (undefined-behaviour interpreter) over the unsafe array/byte-vector codecs and the string escaper, leak checking off."
